@@ -273,18 +273,23 @@ pub fn eval_file(case: &FileCase, st: &mut Stats) -> Result<(), String> {
             }
             let p2 = p.clone();
             let d2 = data.clone();
-            // a read+write handle keeps both opens from blocking; it is closed together with the
-            // writer's handle, which is what delivers end-of-file to the reader
-            let keep = std::fs::OpenOptions::new().read(true).write(true).open(&p);
+            // The writer's open blocks until a reader (the library) has opened the FIFO, then it delivers
+            // the bytes and closes, which is the end-of-file for the reader.
             let writer = std::thread::spawn(move || {
                 use std::io::Write;
                 if let Ok(mut f) = std::fs::OpenOptions::new().write(true).open(&p2) {
                     let _ = f.write_all(&d2);
                 }
-                drop(keep);
             });
             let r = must("hash_file", || ssdeep::hash_file(&p));
+            // should the library never have opened the file, release the writer (a non-blocking reader
+            // lets its open complete; the payload fits into the pipe buffer) so that the join cannot hang
+            let unblock = {
+                use std::os::unix::fs::OpenOptionsExt;
+                std::fs::OpenOptions::new().read(true).custom_flags(libc::O_NONBLOCK).open(&p)
+            };
             let _ = writer.join();
+            drop(unblock);
             let _ = std::fs::remove_file(&p);
             let r = r?;
             if k > 0 {
